@@ -55,6 +55,8 @@ def judge(rep, scens, label):
     bad, nlines, _ = vlib.validate_traces("BlockstoreTrace", "BlockstoreTrace.cfg", files)
     rep.cov["traces_validated_against_impl"] += len(scens)
     rep.cov["evaluations"] += nlines
+    for c in summ.get("crashed", []):
+        rep.violation("the harness process dies or hangs while executing this scenario alone", {"engine": "bstore", "scenario": scens[c["t"]], "rules": ["process-crash-or-hang"], "why": c["why"]})
     seen = set()
     for b in bad:
         if b["t"] in seen:
